@@ -113,7 +113,7 @@ func (w *c04World) c04Deliver(ctx sdk.Context, p *c04Pair, op c04Op) (int, c04Se
 	defer func() { w.wrap.st = nil }()
 	call := w.c04Msg(p, op)
 	nilResp := false
-	err := Try(ctx, func(c sdk.Context) error {
+	err := TryPlain(ctx, func(c sdk.Context) error {
 		n, err := call(c)
 		nilResp = n
 		return err
